@@ -80,6 +80,18 @@ theorem c1_drvIdle {d d' : Drv} (h : DrvIdle d)
   obtain ⟨a1, a2, a3, a4, a5, a6, a7, a8⟩ := h
   exact ⟨h1 ▸ a1, h2 ▸ a2, c1_ctrs a3 c1 c2 c3 c4 c5, h3 ▸ a4, h4 ▸ a5, h5 ▸ a6, h6 ▸ a7, h7 ▸ a8⟩
 
+theorem c1_relOK {s s' : Sys} {f : Nat} (h : RelOK s f) (ha : s'.drv.alloc = s.drv.alloc := by rfl)
+    (hw : s'.w = s.w := by rfl) : RelOK s' f := by
+  unfold RelOK at h ⊢; rw [ha, hw]; exact h
+
+theorem c1_relInv {s s' : Sys} (h : RelInv s) (ha : s'.drv.alloc = s.drv.alloc := by rfl)
+    (htc : s'.drv.toCP = s.drv.toCP := by rfl) (ho : s'.drv.one = s.drv.one := by rfl)
+    (hf : s'.drv.oldF = s.drv.oldF := by rfl) (hw : s'.w = s.w := by rfl) : RelInv s' := by
+  obtain ⟨a1, a2, a3⟩ := h
+  refine ⟨by rw [ha]; exact a1, ?_, ?_⟩
+  · intro m hm; rw [htc] at hm; exact c1_relOK (a2 m hm) ha hw
+  · intro h1; rw [ho] at h1; rw [hf]; exact c1_relOK (a3 h1) ha hw
+
 /-- everything of `Inv` except the phase and the pending request -/
 theorem c1_inv_mk {s s' : Sys} (h : Inv s)
     (hpend : ∀ r ∈ s'.drv.mmuIn, ReqOK s' r ∧ PagesOK s' r ∧ r.id = s'.drv.taken.length) (hph : Phase s')
@@ -87,9 +99,10 @@ theorem c1_inv_mk {s s' : Sys} (h : Inv s)
     (h3 : s'.drv.nPmc = s.drv.nPmc := by rfl) (h4 : s'.drv.capGpuIn = s.drv.capGpuIn := by rfl)
     (h5 : s'.drv.capGpuOut = s.drv.capGpuOut := by rfl) (h6 : s'.drv.fault = s.drv.fault := by rfl)
     (h7 : s'.drv.alloc = s.drv.alloc := by rfl) (h8 : s'.w = s.w := by rfl)
-    (h9 : s'.drv.migLog = s.drv.migLog := by rfl) (h10 : s'.drv.nMig = s.drv.nMig := by rfl) : Inv s' := by
-  obtain ⟨a1, a2, a3, a4, a5, a6, a7, _, _⟩ := h
-  refine ⟨?_, ?_, ?_, ?_, ?_, ?_, ?_, hpend, hph⟩
+    (h9 : s'.drv.migLog = s.drv.migLog := by rfl) (h10 : s'.drv.nMig = s.drv.nMig := by rfl)
+    (hrel : RelInv s' := by exact c1_relInv h.rel) : Inv s' := by
+  obtain ⟨a1, a2, a3, a4, a5, a6, a7, _, _, _⟩ := h
+  refine ⟨?_, ?_, ?_, ?_, ?_, ?_, ?_, hpend, hph, hrel⟩
   · rw [h1]; exact a1
   · rw [h2, h3]; exact a2
   · rw [h2, h4, h5]; exact a3
@@ -227,7 +240,7 @@ theorem c1_sMig_eq (d : Drv) (hf : d.fault = none) : d.sMig.1 = match d.toCP wit
     | m :: rest =>
       if d.one then d
       else if d.gpuOut.length < d.capGpuOut then
-        { d with gpuOut := d.gpuOut ++ [(m.gpu, .mig m.id)], toCP := rest, one := true } else d := by
+        { d with gpuOut := d.gpuOut ++ [(m.gpu, .mig m.id)], toCP := rest, one := true, oldF := m.rd } else d := by
   have hf' : d.fault.isSome = false := by rw [hf]; rfl
   unfold Drv.sMig; rw [hf']
   simp only [Bool.false_eq_true, ↓reduceIte]
@@ -239,8 +252,17 @@ theorem c1_sMig_eq (d : Drv) (hf : d.fault = none) : d.sMig.1 = match d.toCP wit
 
 theorem c1_sMig {s : Sys} (h : Inv s) {m : MigCmd} {rest : List MigCmd} (htc : s.drv.toCP = m :: rest)
     (ho : s.drv.one = false) :
-    Inv { s with drv := { s.drv with gpuOut := s.drv.gpuOut ++ [(m.gpu, .mig m.id)], toCP := rest, one := true } } := by
-  refine c1_inv_mk h (c1_pending h) ?_
+    Inv { s with drv := { s.drv with gpuOut := s.drv.gpuOut ++ [(m.gpu, .mig m.id)], toCP := rest, one := true,
+                                       oldF := m.rd } } := by
+  have hrel : RelInv { s with drv := { s.drv with gpuOut := s.drv.gpuOut ++ [(m.gpu, .mig m.id)], toCP := rest,
+                                                    one := true, oldF := m.rd } } := by
+    obtain ⟨a1, a2, a3⟩ := h.rel
+    refine ⟨a1, ?_, ?_⟩
+    · intro m' hm'
+      exact c1_relOK (a2 m' (by rw [htc]; exact List.mem_cons_of_mem _ hm'))
+    · intro _
+      exact c1_relOK (a2 m (by rw [htc]; exact List.mem_cons_self ..))
+  refine c1_inv_mk h (c1_pending h) ?_ (hrel := hrel)
   rcases h.ph with ⟨di, _, _, _⟩ | ⟨p, r, σ, loc, hp, hh, hc, hr, hct, htc', ho', hb, hw, hm, hpg, hrh⟩ |
       ⟨r, fl, ws, hh, hc, hr, hct, mp, hw, hm, hrh⟩
   · rw [di.toCP] at htc; cases htc
